@@ -133,6 +133,12 @@ func init() {
 			[]Stmt{book, tbl("t", typed(it, "a", "b")...), tbl("fresh", typed(it, "f")...)}})
 	}
 	pairWitnesses = append(pairWitnesses,
+		// C09-i: the old side is a history that dropped the first of two foreign keys
+		witness{"w-old-history-dropped-first-fk", my,
+			[]Stmt{tbl("u", col("id", "int(11)", oNotNull, oPk)), tbl("t", ints("id", "a", "b")...),
+				fk("t", "fk_u_a", "a", "u", "id"), fk("t", "fk_u_b", "b", "u", "id"), {Kind: "dropFk", T: "t", A: "fk_u_a"}},
+			[]Stmt{tbl("u", col("id", "int(11)", oNotNull, oPk)), tbl("t", ints("id", "a", "b")...), fk("t", "fk_u_b", "b", "u", "id")}})
+	pairWitnesses = append(pairWitnesses,
 		// C01-h: an inline key column that changes while PRIMARY KEY is not the last option of its definition
 		witness{"w-key-column-retyped-key-not-last", my,
 			[]Stmt{tbl("account", col("id", "int(11)", oPk, Opt{Kind: "comment", Val: "account id"}), col("name", "varchar(64)"))},
@@ -231,6 +237,9 @@ var scriptWitnesses = []scriptWitness{
 	{"w-pg-alter-column-type-later-call", pg, []Stmt{tbl("t", col("a", "INT8"), col("b", "VARCHAR(64)")), idx("t", "ib", false, "b"), {Kind: "addColumn", T: "t", Col: col("c", "INT4"), Pos: "none"},
 		{Kind: "alterType", T: "t", A: "c", B: "INT8"}, {Kind: "alterType", T: "t", A: "a", B: "INT4"}}},
 	{"w-pg-drop-not-null", pg, []Stmt{tbl("t", col("a", "INT8"), col("b", "VARCHAR(64)")), {Kind: "dropNotNull", T: "t", A: "b"}}},
+	// C09-i: two foreign keys of one table added in the same history, the first dropped, then the second looked up by name
+	{"w-two-fks-first-dropped-then-second", my, []Stmt{tbl("u", col("id", "int(11)", oNotNull, oPk)), tbl("t", ints("id", "a", "b")...),
+		fk("t", "fk_u_a", "a", "u", "id"), fk("t", "fk_u_b", "b", "u", "id"), {Kind: "dropFk", T: "t", A: "fk_u_a"}, {Kind: "dropFk", T: "t", A: "fk_u_b"}}},
 	// found by a sub-agent of round 10 on the unchanged tree (FX-pg-comment-null, FX-renamed-column-dropped)
 	{"w-pg-comment-is-null", pg, []Stmt{tbl("t", col("a", "INT8"), col("b", "INT8")), {Kind: "commentOn", T: "t", A: "a", B: "first"}, {Kind: "commentOn", T: "t", A: "a", B: ""},
 		{Kind: "commentOn", T: "t", A: "b", B: ""}}},
